@@ -56,6 +56,17 @@ static void fill_payload(uint8_t *p, uint32_t L, uint32_t i, uint32_t k, int pay
 {
 	if (payload == PAY_IDENTITY) { memset(p, 0, L); if (i / 8 < L) p[i / 8] = (uint8_t)(1u << (i % 8)); }
 	else for (uint32_t b = 0; b < L; b++) p[b] = (uint8_t)rng_u64(rng);
+	if (payload == PAY_SPARSE) {
+		/* structured contents: whole symbols of zeros, zero 64-bit words, zero bytes, a zero tail (padding), two equal symbols */
+		switch (rng_below(rng, 6)) {
+		case 0: memset(p, 0, L); break;
+		case 1: for (uint32_t b = 0; b < L; b += 8) if (rng_below(rng, 2)) memset(p + b, 0, L - b < 8 ? L - b : 8); break;
+		case 2: for (uint32_t b = 0; b < L; b++) if (rng_below(rng, 3)) p[b] = 0; break;
+		case 3: { uint32_t a = rng_below(rng, L + 1); memset(p + a, 0, L - a); } break;
+		case 4: memset(p, (int)(i & 1 ? 0xFF : 0x01), L); break;
+		default: break;
+		}
+	}
 	(void)k;
 }
 
